@@ -251,8 +251,12 @@ fn apply(w: &mut World, op: Op) -> StepOut {
                         }
                         let weights: Vec<(u8, i32)> =
                             allowed.iter().map(|&i| (i, w.refs[i as usize].weight)).collect();
+                        // the cluster's membership is part of the signature: a table-based policy
+                        // (Maglev) is built from every member, eligible or not, so two clusters with
+                        // different members are different clusters even when the same subset qualifies
+                        let members: Vec<(u8, i32)> = (0..3u8).filter(|&i| w.refs[i as usize].present).map(|i| (i, w.refs[i as usize].weight)).collect();
                         if let Some(p) = picked {
-                            out.affinity = Some((format!("{}|{:?}|{}", w.policy, weights, k), p));
+                            out.affinity = Some((format!("{}|{:?}|{:?}|{}", w.policy, members, weights, k), p));
                         }
                     }
                     picked
